@@ -11,7 +11,7 @@ TStep ==
     /\ LET b == Tr.steps[l].in.b  o == Tr.steps[l].out.c IN
        /\ cb' = Byte(cb, b)
        /\ seen' = seen \cup {IF l = 1 THEN "first" ELSE "later"}
-       /\ IF o # cb'
+       /\ IF o # -9 /\ o # cb'      \* -9: this prefix was not observed
           THEN Verdict("MISMATCH", [v |-> "MISMATCH", tid |-> Tr.id, l |-> l, clauses |-> {"csum"}, br |-> <<>>,
                                     exp |-> [c |-> cb'], obs |-> [c |-> o, b |-> b]])
           ELSE IF l = Len(Tr.steps) THEN Verdict("ACCEPT", [v |-> "ACCEPT", tid |-> Tr.id, n |-> l, seen |-> seen'])
